@@ -488,9 +488,20 @@ impl Compiler {
                 right,
             } => {
                 // If this expression is a combination of a constant & a variable, create an optimized instruction for it that skips the stack
+                // The fused instructions compute `variable <op> constant`, so with the constant
+                // on the left they are only correct for commutative operators.
+                let commutative = matches!(
+                    operator,
+                    Operator::Add | Operator::Multiply | Operator::Eq | Operator::Neq
+                );
                 match (&**left, &**right) {
-                    (Expr::Identifier(name), Expr::Int { value })
-                    | (Expr::Int { value }, Expr::Identifier(name)) => {
+                    (Expr::Identifier(name), Expr::Int { value }) => {
+                        let res = self.compile_const_var_infix_expression(name, *value, operator);
+                        if res.is_ok() {
+                            return res;
+                        }
+                    }
+                    (Expr::Int { value }, Expr::Identifier(name)) if commutative => {
                         let res = self.compile_const_var_infix_expression(name, *value, operator);
                         if res.is_ok() {
                             return res;
